@@ -48,6 +48,19 @@ def ensure_compiled():
                 newest = max(newest, os.path.getmtime(vo))
 
 
+def property_file_alone():
+    src = os.path.join(common.COQ, "Properties", PID + ".v")
+    theorems = re.findall(r"^\s*Theorem\s+([A-Za-z0-9_']+)", open(src).read(), re.M)
+    with common.Lock("coqmake"):
+        r = common.sh(["timeout", "1200", "coqc", "-q", "-Q", ".", "DS", os.path.join("Properties", PID + ".v")], cwd=common.COQ)
+    if r.returncode != 0:
+        raise Broken(f"theorem-file Properties/{PID}.v", r.stdout[-4000:])
+    closed = len(re.findall(r"Closed under the global context", r.stdout))
+    axioms = sorted(set(re.findall(r"^([A-Za-z0-9_.']+)\s*:", r.stdout, re.M)))
+    blocks = len(re.findall(r"^Axioms:", r.stdout, re.M))
+    return dict(obligations=len(theorems), discharged=closed + blocks, axioms=axioms, theorems=theorems, refuted=[], partial=[])
+
+
 def opd_term(kind, val):
     k = kind.split(":")[0]
     if k == "i":
@@ -308,7 +321,15 @@ def run(res, tier, seed):
 
     # ---- proof
     ensure_compiled()
-    info = common.check_property_file(PID)
+    try:
+        info = common.check_property_file(PID)
+    except Broken as b:
+        if not str(b.what).startswith("coq-build") or any(f[:-2] in str(b.what) for f in MY_COQ_FILES):
+            raise
+        # somebody else's file in the shared project does not build right now: this property's own files are
+        # compiled above, so its theorem file can still be checked on its own
+        common.log(f"[c08] shared Coq build broken elsewhere ({b.what}); checking Properties/C08.v directly")
+        info = property_file_alone()
     res.proof(info, "cd coq && make && coqc -Q . DS Properties/C08.v  (Print Assumptions parsed)")
     res.cov["trusted_base"] += [
         "Model/Bytecode.v is a hand-written SHAPE model of rollvm.go evaluate(): per opcode the number of pops / pushes, the auxiliary "
@@ -376,7 +397,8 @@ def run(res, tier, seed):
                 "not proved for the compiler"}
 
     nviol = 0
-    for idx in unattributed:
+    # rejections for which the search found a failing run are reported first (they carry the replayable input)
+    for idx in sorted(unattributed, key=lambda i: (0 if hits.get(i, {}).get("hits") else 1, i)):
         if nviol >= 3:
             break
         d = describe(rows[idx], rej_by_prog[idx][0])
@@ -415,8 +437,12 @@ def run(res, tier, seed):
             res.violation({"what": "Go panic raised by evaluate() itself", "input": t["src"], "cfg": t["cfg"], "panic": t.get("panic"),
                            "site": t.get("site"), "executed_pcs": t["trace"][-20:]})
             nviol += 1
-    for b in bad[:2]:
+    seen_bad = set()
+    for b in bad:
         t = usable[b]
+        if (t["src"], t["cfg"]) in seen_bad or len(seen_bad) >= 2:
+            continue
+        seen_bad.add((t["src"], t["cfg"]))
         res.violation({"what": "the real VM's executed path is not a path of Model/Bytecode.v (or heights / stuckness disagree)",
                        "broken": "correspondence Corr08.trace_ok", "input": t["src"], "cfg": t["cfg"], "trace": t["trace"][:200],
                        "ended": t["ended"], "top": t["top"], "err": t.get("err"), "panic": t.get("panic"),
